@@ -375,8 +375,36 @@ class State:
         """is `t >= 1` (unsigned) known on this path, however the test was spelled (t > 0, t != 0, !(t == 0), t >= 1 ...)?"""
         if is_const(t):
             return t[1] >= 1
-        return self.lo.get(t, 0) >= 1 or 0 in self.nec.get(t, ()) or self.truth.get(("icmp", "eq", t, ZERO)) is False or \
-            self.truth.get(("icmp", "ne", t, ZERO)) is True or self.truth.get(("icmp", "ugt", t, ZERO)) is True or self.truth.get(t) is True
+        if self.lo.get(t, 0) >= 1 or 0 in self.nec.get(t, ()) or self.truth.get(("icmp", "eq", t, ZERO)) is False or \
+                self.truth.get(("icmp", "ne", t, ZERO)) is True or self.truth.get(("icmp", "ugt", t, ZERO)) is True or self.truth.get(t) is True:
+            return True
+        if zero_truth(self, t) is False:
+            return True
+        # a product (or shift) of t that is known to be non-zero: so is t
+        return any(zero_truth(self, p) is False for p in self.products_of(t))
+
+    def products_of(self, t):
+        """the terms `t * c` / `c * t` / `t << c` that some fact of this path speaks about"""
+        out = []
+        for k in self.truth:
+            for x in (k[2:4] if isinstance(k, tuple) and k and k[0] == "icmp" else (k,)):
+                if isinstance(x, tuple) and len(x) == 5 and x[0] == "op" and x[1] in ("mul", "shl") and \
+                        ((x[3] == t and is_const(x[4])) or (x[1] == "mul" and x[4] == t and is_const(x[3]))) and x not in out:
+                    out.append(x)
+        return out
+
+    def known_zero_count(self, t):
+        """is the member count t known to be 0?  Either directly, or through a small multiple of it that is 0 - which says the
+        same of t for every count a container was successfully created with (its table of 8- or 16-byte slots was allocated under
+        the overflow guard, so 2*t did not wrap: C20.guard)"""
+        if self.hi.get(t, 1) == 0 or self.eqc.get(t) == 0 or zero_truth(self, t) is True:
+            return True
+        for p in self.products_of(t):
+            c = p[4] if is_const(p[4]) else p[3]
+            small = (p[1] == "mul" and 1 <= c[1] <= 8) or (p[1] == "shl" and 0 <= c[1] <= 3)
+            if small and zero_truth(self, p) is True:
+                return True
+        return False
 
     def known_nonnull(self, t, upto=None):
         """is `t != 0` among the facts (optionally only the first `upto` facts)?"""
@@ -659,6 +687,247 @@ def _is_loader(g, depth=0):
     return ok
 
 
+_VB = {}
+
+
+def _value_builder(prog, g):
+    """a public constructor that is a composition of other public operations on one fresh item: it calls one routine whose result
+    it returns (or NULL), and otherwise only library routines that take that result first (mark it, set its value) - no loop,
+    no indirect call.  `cbor_build_uint8(v)` = new_int8 + mark_uint + set_uint8."""
+    from ir import Inst, Const, strip_casts as _sc
+    if g is None or not g.blocks or g.back_edges():
+        return False
+    made = []
+    for r in g.returns():
+        vals, seen = [r.operands[0]] if r.operands else [], set()
+        while vals:
+            v = _sc(vals.pop())
+            if isinstance(v, Inst) and v.op == "phi":
+                if v.id not in seen:
+                    seen.add(v.id)
+                    vals.extend(v.operands)
+            elif isinstance(v, Inst) and v.op == "call" and v.callee in prog.funcs:
+                made.append(v)
+            elif isinstance(v, Const) or v.__class__.__name__ in ("Null", "ConstNull"):
+                pass
+            elif getattr(v, "kind", None) in ("null", "const"):
+                pass
+            else:
+                return False
+    ids = {m.id for m in made}
+    if len(ids) != 1:
+        return False
+    ctor = made[0]
+    for c in g.calls():
+        if c.id == ctor.id or (c.callee or "").startswith("llvm."):
+            continue
+        if c.callee is None or c.callee not in prog.funcs or not c.operands:
+            return False
+        a0 = _sc(c.operands[0])
+        if not (isinstance(a0, Inst) and a0.id == ctor.id):
+            return False
+    return len(list(g.calls())) >= 2
+
+
+def _wired_builders(prog):
+    k = id(prog)
+    if k not in _VB:
+        _VB[k] = set()
+        try:
+            import tables as _T
+            gl = _T.load_callbacks_global(prog)
+            if gl is not None and hasattr(gl.get("init_val"), "elems"):
+                _VB[k] = {el.name for el in gl["init_val"].elems if hasattr(el, "name")}
+        except Exception:
+            pass
+    return _VB[k]
+
+
+_EFR = {}
+
+
+def entry_field_result(prog, eff, callee):
+    """(parameter index, [offsets]) when every path of the non-recursive, loop-free library routine `callee` returns the value that
+    the field chain param->off1->off2.. held on entry (read before the routine wrote or called anything); None otherwise"""
+    key = (id(prog), callee)
+    if key in _EFR:
+        return _EFR[key]
+    _EFR[key] = None
+    g = prog.funcs.get(callee)
+    if g is None or not g.blocks or g.back_edges() or len(list(g.all_insts())) > 80 or callee in eff.transitive_callees(callee):
+        return None
+    try:
+        ps = Executor(prog, eff, auto_static=False, max_paths=64).run(callee)
+    except Exception:
+        return None
+    out = None
+    for pa in ps:
+        r, offs = pa.ret, []
+        while isinstance(r, tuple) and r[0] == "ld" and len(r) == 4:
+            offs.append(r[2])
+            r = r[1]
+        if not offs or not (isinstance(r, tuple) and r[0] == "arg"):
+            return None
+        # the reads happen before any effect
+        first_effect = next((i for i, e in enumerate(pa.events) if e.kind in ("store", "call", "memcpy")), len(pa.events))
+        seen_ = {e.res for e in pa.events[:first_effect] if e.kind == "load"}
+        t = pa.ret
+        while isinstance(t, tuple) and t[0] == "ld":
+            if t not in seen_:
+                return None
+            t = t[1]
+        cand = (r[1], tuple(reversed(offs)))
+        if out is not None and out != cand:
+            return None
+        out = cand
+    _EFR[key] = out
+    return out
+
+
+_FF = {}
+
+
+def fresh_fields(prog, eff, callee):
+    """what a constructor guarantees about the block it returns: {offset: (constant, type)} for the fields that hold the same
+    constant on every path of `callee` that returns a non-NULL fresh block (the item's type tag, its width, its flavour).  Read
+    off the constructor's own paths; None when the routine is not of that kind."""
+    key = (id(prog), callee)
+    if key in _FF:
+        return _FF[key]
+    _FF[key] = None
+    g = prog.funcs.get(callee)
+    S = eff.summ.get(callee) if hasattr(eff, "summ") else None
+    if g is None or S is None or not g.blocks or not S["allocates"] or g.back_edges() or len(list(g.all_insts())) > 150 or \
+            callee in eff.transitive_callees(callee) or len(g.params) > 2:
+        return None
+    try:
+        ps = Executor(prog, eff, max_paths=64).run(callee)
+    except Exception:
+        return None
+    out = None
+    for pa in ps:
+        r = pa.ret
+        if r is None or r == ("c", 0) or not isinstance(r, tuple):
+            continue
+        b, o = ptr_key(r)
+        if o != 0 or not (isinstance(b, tuple) and b[0] == "call"):
+            return None
+        al = [e for e in pa.events if e.kind == "call" and e.res == b]
+        if not al or al[0].ckind != "alloc":
+            return None
+        cells = {k[1]: (v, pa.st.stype.get(k)) for k, v in pa.st.store.items() if k[0] == b and is_const(v) and pa.st.stype.get(k)}
+        out = cells if out is None else {k: v for k, v in out.items() if cells.get(k) == v}
+    _FF[key] = out or None
+    return _FF[key]
+
+
+_PWC = {}
+
+
+def param_write_cells(prog, eff, callee, k, depth=0):
+    """the cells of the object behind parameter k that the library routine `callee` may write, as a set of (offset, size) - when all
+    its writes through that parameter are stores at constant offsets of the object itself (a setter); None when anything else may
+    be written through it (a store through a pointer read from memory, a variable index, an external or indirect call)"""
+    from ir import Inst, Arg, access_path
+    key = (id(prog), callee, k)
+    if key in _PWC:
+        return _PWC[key]
+    _PWC[key] = None          # (recursion: unknown)
+    g = prog.funcs.get(callee)
+    if g is None or not g.blocks or depth > 3:
+        return None
+    cells = set()
+
+    def rooted(v):
+        """(offset) when v is param k plus a constant, "other" when it is rooted in another parameter, a local or a global,
+        None when it cannot be told"""
+        root, steps = access_path(v)
+        if any(st_[0] != "off" for st_ in steps):
+            # through a load: the pointee of some field - of this parameter or of anything else
+            return None
+        if root == ("arg", k):
+            return sum(st_[1] for st_ in steps)
+        if root[0] in ("arg", "global"):
+            return "other"
+        if root[0] == "inst":
+            ins_ = g.insts.get(root[1])
+            if ins_ is not None and ins_.op == "alloca":
+                return "other"
+        return None
+    for i in g.all_insts():
+        if i.op == "store":
+            r = rooted(i.operands[1])
+            if r is None:
+                return None
+            if r != "other":
+                cells.add((r, max(1, (type_bits(i.d.get("val_type", "i64")) or 64) // 8)))
+        elif i.op == "call":
+            c = i.callee
+            if c is None:
+                return None
+            if c.startswith("llvm.dbg") or c.startswith("llvm.lifetime") or c in ("llvm.assume",):
+                continue
+            if c.startswith(("llvm.memcpy", "llvm.memmove", "llvm.memset")):
+                r = rooted(i.operands[0])
+                if r is None:
+                    return None
+                if r != "other":
+                    n = i.operands[2]
+                    if not hasattr(n, "v") or not isinstance(n.v, int):
+                        return None
+                    cells.add((r, n.v))
+                continue
+            for j, a in enumerate(i.operands):
+                if not str(getattr(a, "type", "")).endswith("*"):
+                    continue
+                r = rooted(a)
+                if r == "other":
+                    continue
+                if c not in prog.funcs:
+                    if c.startswith("llvm.") or c in ("__assert_fail", "abort"):
+                        continue
+                    return None
+                if r is None:
+                    # a pointer of unknown origin handed on: harmless only if the callee writes through nothing it is given
+                    if any(w[0] == "param" and w[1] == j for w in eff.summ[c]["writes"]) or eff.summ[c]["callbacks"]:
+                        return None
+                    continue
+                if not any(w[0] == "param" and w[1] == j for w in eff.summ[c]["writes"]):
+                    continue
+                sub = param_write_cells(prog, eff, c, j, depth + 1)
+                if sub is None:
+                    return None
+                cells |= {(r + o_, n_) for o_, n_ in sub}
+    _PWC[key] = cells
+    return cells
+
+
+def zero_truth(st, v):
+    """what the path knows about "the unsigned value v is 0": True / False / None - however the test was spelled
+    (== 0, != 0, > 0, <= 0, < 1, >= 1, with the operands in either order)"""
+    for pred, c, z in (("eq", 0, True), ("ne", 0, False), ("ugt", 0, False), ("ule", 0, True), ("ult", 1, True), ("uge", 1, False)):
+        t = st.truth.get(("icmp", pred, v, ("c", c)))
+        if t is not None:
+            return t if z else not t
+    for pred, c, z in (("eq", 0, True), ("ne", 0, False), ("ult", 0, False), ("uge", 0, True), ("ugt", 1, True), ("ule", 1, False)):
+        t = st.truth.get(("icmp", pred, ("c", c), v))
+        if t is not None:
+            return t if z else not t
+    return None
+
+
+def _composition(prog, g):
+    """a non-static routine that is still an implementation detail: it lives in a primitives module (the allocation helpers, the
+    decoder's stack) and only composes that module's primitives - direct calls only, at least one primitive among them"""
+    if any(getattr(i_, "callee", None) is None for i_ in g.calls()):
+        return False
+    for prims in (("_cbor_realloc_multiple", "_cbor_alloc_multiple"), ("_cbor_stack_pop", "_cbor_stack_push")):
+        anchor = prog.funcs.get(prims[0])
+        if anchor is not None and g.unit == anchor.unit and g.name not in prims and any(cc.callee in prims for cc in g.calls()):
+            return True
+    return False
+
+
 def is_helper(prog, g):
     """a function that is an implementation detail of its callers: unit-internal (static), or a routine of the allocation-helper
     module that only composes that module's primitives (see static_callees)"""
@@ -666,9 +935,7 @@ def is_helper(prog, g):
         return False
     if g.internal:
         return True
-    anchor = prog.funcs.get("_cbor_realloc_multiple")
-    return anchor is not None and g.unit == anchor.unit and not any(getattr(i_, "callee", None) is None for i_ in g.calls()) and \
-        any(cc.callee in ("_cbor_realloc_multiple", "_cbor_alloc_multiple") for cc in g.calls())
+    return _composition(prog, g)
 
 
 def static_callees(prog, eff, fname):
@@ -685,11 +952,14 @@ def static_callees(prog, eff, fname):
             return False
         if g.internal:
             return True
+        # the tree builder's callbacks may be written with the public value builders (`append(cbor_build_uint8(value))`): what
+        # such a builder does to the fresh item is the callback's own business, wherever the three calls are spelled out
+        if fname in _wired_builders(prog) and _value_builder(prog, g):
+            return True
         # a routine of the allocation-helper module that is a composition of its primitives (it calls them, never the allocator
         # hooks themselves): the growth step of two containers kept in one place is still part of each container's insert routine
-        anchor = prog.funcs.get("_cbor_realloc_multiple")
-        return anchor is not None and g.unit == anchor.unit and not any(getattr(i_, "callee", None) is None for i_ in g.calls()) and \
-            any(cc.callee in ("_cbor_realloc_multiple", "_cbor_alloc_multiple") for cc in g.calls())
+        # (likewise a routine of the stack module built from push/pop: the unwinding loop kept next to the stack)
+        return _composition(prog, g)
 
     def on_internal_cycle(c):
         seen = set()
@@ -734,6 +1004,7 @@ class Executor:
         self.snapshot_calls = set(snapshot_calls)
         self.inline = set(inline)
         self.inline_given = set(inline)
+        self.ctor_fields = True
         self.auto_static = auto_static
         self.max_paths = max_paths
         self.loop_bound = loop_bound
@@ -1028,6 +1299,16 @@ class Executor:
                 iv = g.get("init_val") if g and g.get("constant") else None
                 if isinstance(iv, Const):
                     return ("c", iv.v)
+                if isinstance(iv, Agg) and not iv.zero and iv.elems and all(isinstance(x, Const) for x in iv.elems) and \
+                        (g.get("type") or "").startswith("["):
+                    return ("c", iv.elems[0].v)     # element 0 of a constant array of numbers
+            if isinstance(p, tuple) and p[0] == "cgep" and isinstance(p[1], tuple) and p[1][0] == "g" and len(p[2]) == 2 and \
+                    p[2][0] == ("c", 0) and is_const(p[2][1]):
+                g = self.prog.global_for(f, p[1][1])
+                iv = g.get("init_val") if g and g.get("constant") else None
+                if isinstance(iv, Agg) and not iv.zero and (g.get("type") or "").startswith("[") and p[2][1][1] < len(iv.elems) and \
+                        isinstance(iv.elems[p[2][1][1]], Const):
+                    return ("c", iv.elems[p[2][1][1]].v)   # a constant element of a constant array of numbers
             # a field of a constant aggregate (a `static const` table of function pointers or numbers, possibly handed to a helper
             # by address): the value is its initialiser, whoever reads it
             gb, go = ptr_key(p) if isinstance(p, tuple) else (None, 0)
@@ -1110,6 +1391,11 @@ class Executor:
                 return ("not", a)
             if op in ("add", "or", "sub", "shl", "lshr", "xor") and b == ZERO:
                 return a
+            if op in ("lshr", "shl") and bits and b is not None and is_const(b) and isinstance(a, tuple) and len(a) == 5 and a[0] == "op" and \
+                    a[1] == op and a[2] == ins.type and is_const(a[4]):
+                # a value shifted piecewise (`v >>= 8` once per loop round): one shift by the sum of the distances
+                tot = a[4][1] + b[1]
+                return ZERO if tot >= bits else ("op", op, ins.type, a[3], ("c", tot))
             if op in ("add", "or", "xor") and a == ZERO:
                 return b
             if op == "sub" and bits == 64 and b is not None and isinstance(a, tuple) and isinstance(b, tuple) and \
@@ -1268,16 +1554,41 @@ class Executor:
                     res_t = st.pure[pk]
                 else:
                     st.pure[pk] = res_t
+        if ckind == "lib" and not pure and ins.type.endswith("*"):
+            # a routine that hands back what a field held when it was called (`item = _cbor_stack_pop(stack)`: the popped record's
+            # item): the result is that value - read off the routine's own paths, not assumed
+            chain = entry_field_result(self.prog, self.eff, callee)
+            if chain is not None and chain[0] < len(actuals):
+                t_ = actuals[chain[0]]
+                for off_ in chain[1]:
+                    p_ = mkptr(t_, off_)
+                    t_ = st.load(p_, "i8*", ins)
+                    # (the reads the routine makes on the caller's behalf are part of the path, like the caller's own)
+                    st.events.append(Event("load", ins, f, (p_,), t_, len(st.facts), None, None, "synthetic", depth))
+                res_t = t_
         ev = Event("call", ins, f, actuals, res_t, len(st.facts), callee, ckind, dict(pointee=pointee), depth)
         if callee in self.snapshot_calls:
             ev.extra["state"] = st.clone()   # memory as the callee receives it
         st.events.append(ev)
+        if ckind == "lib" and ins.type.endswith("*") and not pure and self.ctor_fields:
+            ff = fresh_fields(self.prog, self.eff, callee)
+            if ff:
+                # the constructor's guarantees about the fresh block (meaningful where the result is not NULL)
+                for off_, (v_, ty_) in ff.items():
+                    st.do_store(mkptr(res_t, off_), v_, ty_)
         if ckind == "lib":
             S = self.eff.summ[callee]
             kill = []
             for r in S["writes"]:
                 if r[0] == "param" and r[1] < len(actuals):
                     a = actuals[r[1]]
+                    cells_ = param_write_cells(self.prog, self.eff, callee, r[1]) if isinstance(a, tuple) and not S["callbacks"] else None
+                    if cells_ is not None:
+                        # a setter: only the cells it stores to change (C: nothing else of the object, nothing behind its pointers)
+                        ab_, ao_ = ptr_key(a)
+                        for o_, n_ in cells_:
+                            st._kill_range(ab_, ao_ + o_, ao_ + o_ + n_)
+                        continue
                     kill.append(ptr_key(a)[0] if isinstance(a, tuple) else a)
                 elif r[0] == "global":
                     kill.append(("g", r[1]))
